@@ -265,6 +265,15 @@ def check_state(part, ref, objs, qv, label, full=False):
         got = list(part.iter_all())
         check(sorted(by_obj(o) for o in got) == sorted(r[0] for r in ref.objs if r[2] is not None),
               label + ": iter_all() without class")
+        got = list(part.iter_all(mode="ending"))
+        check(sorted(by_obj(o) for o in got) == sorted(r[0] for r in ref.objs if r[3] is not None),
+              label + ": iter_all(mode='ending') without class")
+        for (lo, hi) in ranges[1:]:
+            for mode, side in (("starting", 2), ("ending", 3)):
+                got = list(part.iter_all(None, start=lo, end=hi, mode=mode))
+                exp = ref.query(list(SUBCLS["TimedObject"]), lo, hi, mode)
+                check(sorted(by_obj(o) for o in got) == sorted(k for _, k in exp),
+                      label + ": iter_all(cls=None) on an interval", mode)
     # neighbour queries from every point
     for i, p in enumerate(pts):
         for (eq, sub) in (((False, False), (False, True), (True, False), (True, True)) if full
